@@ -551,6 +551,24 @@ def spsolve(A, b, **kw):
     return XArray((n, bb.shape[1]), [v for row in x for v in row])
 
 
+class _LU:
+    """scipy.sparse.linalg.splu(A): a factorisation object; solve(b) returns the solution of A x = b (exact)"""
+
+    _xeval_open = True
+
+    def __init__(self, A, **kw):
+        self.A = XSp(_as_sp(A))
+        self.shape = self.A.shape
+
+    def solve(self, b, trans="N"):
+        return spsolve(self.A if trans == "N" else self.A.T, b)
+
+
+def factorized(A):
+    lu = _LU(A)
+    return lambda b: lu.solve(b)
+
+
 MODULE = {
     "csr_matrix": XSp,
     "csc_matrix": XSp,
@@ -567,6 +585,9 @@ MODULE = {
     "issparse": issparse,
     "isspmatrix": issparse,
     "linalg.spsolve": spsolve,
+    "linalg.splu": _LU,
+    "linalg.spilu": _LU,
+    "linalg.factorized": factorized,
 }
 
 
